@@ -623,6 +623,18 @@ func (w *c09world) encoder(console bool) zapcore.Encoder {
 	cfg.CallerKey = "caller"
 	cfg.EncodeCaller = []zapcore.CallerEncoder{zapcore.ShortCallerEncoder, zapcore.FullCallerEncoder}[st/128%2]
 	cfg.EncodeName = zapcore.FullNameEncoder
+	// members left unset are legal: the encoders fall back to defaults of
+	// their own at every call (not the caller encoder: the JSON encoder calls
+	// it unconditionally when a caller key is set, sequentially as well)
+	if st/256%2 == 1 {
+		cfg.EncodeDuration = nil
+	}
+	if st/512%2 == 1 {
+		cfg.EncodeTime = nil
+	}
+	if st/1024%2 == 1 {
+		cfg.EncodeName = nil
+	}
 	if console {
 		return zapcore.NewConsoleEncoder(cfg)
 	}
